@@ -32,7 +32,8 @@ the latter may raise (`Cfg.logFails`, an oracle), which only changes the reply.
 Quirks kept: a global `deactivate` leaves module / parameter subscriptions alone; `deactivate m`
 also drops `m:p`; `deactivate` of anything unknown answers `inactive`; repeated identical errors are
 not announced; disconnect does not take the dispatcher lock.
-Assumption (harness configuration): `omit_unchanged_within = 0`, i.e. every value assignment is announced.
+The omit window for unchanged values (`omit_unchanged_within`, `update_unchanged`) is an oracle per parameter
+(`Cfg.omitSame`): either 0 (every value assignment is announced) or longer than the run.
 -/
 namespace Frappy.Activate
 
@@ -105,6 +106,10 @@ structure Cfg where
   /-- oracle: does `set_all_log_levels(conn, 'off')` raise for this connection (remote logging not set up:
   `ValueError('remote handler not found')`); `reset_connection` calls it AFTER the tables are cleared -/
   logFails : Conn → Bool := fun _ => false
+  /-- is an assignment of the value the parameter already holds left unannounced (`Parameter.update_unchanged = 'never'`,
+  or a module / general `omit_unchanged_within` longer than the run); `false`: every value assignment is announced
+  (`'always'`, window 0).  A window that ends during the run is not modelled. -/
+  omitSame : Mod → Par → Bool := fun _ _ => false
 
 /-- program counter of a request thread -/
 inductive HPc
@@ -234,11 +239,18 @@ def tableWrite (σ : State) (c : Conn) : Req → State
   | .ident => resetConn σ c
   | .disconnect => resetConn σ c
 
-/-- is the assignment announced (`announceUpdate`: repeated identical errors are dropped) -/
-def emits (old new : Entry) : Bool :=
+/-- is `m:p` an exported parameter of an exported module (`pobj.export`; the parameters of a module that is not exported
+are not exported either) -/
+def exported (cfg : Cfg) (m : Mod) (p : Par) : Bool := cfg.mods.contains m && (cfg.pars m).contains p
+
+/-- is the assignment announced to the dispatcher (`announceUpdate`): repeated identical errors are dropped; an unchanged
+value (`changed = pobj.value != value or pobj.readerror` is false) is dropped inside the parameter's omit window; and only
+an exported parameter is passed on (`if pobj.export: self.updateCallback(self, pobj)`) -/
+def emits (cfg : Cfg) (m : Mod) (p : Par) (old new : Entry) : Bool :=
+  exported cfg m p &&
   match new with
   | .err k => old != .err k
-  | .val _ => true
+  | .val v => !(cfg.omitSame m p && old == .val v)
 
 def firstPc (r : Req) : HPc :=
   match r with
@@ -287,7 +299,7 @@ def stepU (cfg : Cfg) (σ : State) (k : Nat) (arg : Conn) : Option State :=
     | [] => some { σ with upc := set σ.upc k .done }
     | (m, p, e) :: rest =>
       if σ.upd m = none then
-        if emits (σ.cache m p) e then
+        if emits cfg m p (σ.cache m p) e then
           some { σ with upd := set σ.upd m (some (.u k)), uscript := set σ.uscript k rest,
                         cache := fun m' p' => if m' = m ∧ p' = p then e else σ.cache m' p',
                         trace := σ.trace ++ [.emit k m p e], upc := set σ.upc k (.wantSub m p e) }
@@ -345,6 +357,7 @@ inductive Label
   | acquire (l : Lk)
   | release (l : Lk)
   | send (c : Conn)
+  | recv                -- the connection's thread takes the next request off the wire (the marker is written after this point)
   | fin
   deriving DecidableEq, Repr, Inhabited
 
@@ -357,7 +370,7 @@ def finished (σ : State) : Tid → Bool
 def nextVisible (σ : State) : Tid → Option Label
   | .h c =>
     match σ.hpc c with
-    | .idle => match σ.hscript c with | [] => some .fin | _ => none
+    | .idle => match σ.hscript c with | [] => some .fin | _ => some .recv
     | .start _ => some (.acquire .disp)
     | .wantSub _ => some (.acquire .sub)
     | .relSub _ => some (.release .sub)
